@@ -397,6 +397,22 @@ pub fn seeds() -> Vec<(String, Vec<u8>)> {
             }
         }
     }
+    // hostile HLL set images: a table filled to the last slot (no valid sketch has a load above 3/4), in the
+    // updatable and in the compact form - a reader that accepts them leaves the next probe without a free slot
+    for &lg_k in &[10u8, 12] {
+        let lg_arr = 5u8;
+        let coupons: Vec<u32> = (0..(1u32 << lg_arr)).map(|_| refhash::hll_coupon(&sm.next().to_le_bytes())).collect();
+        for compact in [false, true] {
+            let mut img = hspec::encode_set(lg_k, 2, &coupons[..20], lg_arr, &hspec::EncOpts { compact, ooo: false, empty_flag: true });
+            // rewrite as a full table: count = 2^lg_arr, payload = all coupons
+            img.truncate(12);
+            img[8..12].copy_from_slice(&(coupons.len() as u32).to_le_bytes());
+            for c in &coupons {
+                img.extend_from_slice(&c.to_le_bytes());
+            }
+            v.push((format!("hll/hostile/fullset/lg{lg_k}/c{compact}"), img));
+        }
+    }
     // theta
     let sh = refhash::seed_hash(9001);
     for &n in &[0usize, 1, 2, 7, 8, 9, 100, 600] {
@@ -1029,8 +1045,12 @@ fn libfuzzer_sub(ctx: &Ctx) -> SubReport {
     let built = run(std::process::Command::new("cargo")
         .args(["+nightly", "fuzz", "build", "-s", "none", "--fuzz-dir"])
         .arg(format!("{root}/fuzz"))
+        .arg("--target-dir")
+        .arg(format!("{root}/fuzz/target"))
         .arg("deser")
         .env("CARGO_NET_OFFLINE", "true")
+        // a copy of /verif builds its harness into its own CARGO_TARGET_DIR; the fuzz crate has its own
+        .env_remove("CARGO_TARGET_DIR")
         .current_dir(&root));
     if let Err(e) = built {
         rep.inconclusive.push(format!("cargo +nightly fuzz build failed, the coverage-guided campaign did not run: {e}"));
